@@ -15,13 +15,27 @@ RBC_ASSUME = [
   'mpz stream operator<<: binary tokens (2+H_TOKBYTES bytes) instead of base-62 text, so tag and digest strings have equal length',
   'tmcg_mpz_wrandom_ui/_mod return 0: the drawn values are used only under simulate_faulty_behaviour (never set) and to permute the scan of buf_msg, which no code path fills (asserted empty)']
 def RBC(name, entry, desc, symbolic, bounds, **kw):
-    d = dict(id='C14_' + name, property='C14', src='C14_rbc.cc', entry=entry, tu=RBC_TU, unwind=10, replace=RBC_REPLACE,
-             defines={'VF_BITS': 34, 'H_DBITS': 4, 'H_TOKBYTES': 2, 'MINISTL_STREAM_CAP': 256, 'MINISTL_STRING_MINCAP': 31},
-             config={'TMCG_AIO_HIDE_SIZE': 4}, desc=desc, symbolic=symbolic, bounds=bounds, assumptions=RBC_ASSUME, backend='kissat', memgb=6, timeout=600,
-             cbmc_flags=['--max-field-sensitivity-array-size', '300'],   # stream buffers (256 bytes) must stay field-sensitive: concrete tags stay concrete
-             unwindset={'_ZNSs6appendEPKcm.4': 40, '_ZNSt11char_traitsIcE6lengthEPKc.0': 40})
+    d = dict(id='C14_' + name, property='C14', src='C14_rbc.cc', entry=entry, tu=RBC_TU, unwind=64, replace=RBC_REPLACE,
+             defines={'VF_BITS': 34, 'H_DBITS': 4, 'H_TOKBYTES': 2, 'MINISTL_STREAM_CAP': 64, 'MINISTL_STRING_MINCAP': 31},
+             config={'TMCG_AIO_HIDE_SIZE': 4}, desc=desc, symbolic=symbolic, bounds=bounds, assumptions=RBC_ASSUME, backend='kissat', memgb=6, timeout=1500, object_bits=14,
+             cbmc_flags=['--max-field-sensitivity-array-size', '300'],   # buffers of 65..256 bytes must stay field-sensitive, otherwise concrete tags turn symbolic for the engine
+             )
     d.update(kw); H(**d)
-RBC('honest_n4', 'h_honest', 'n=4, t=1, one honest sender, fixed schedules until quiescence: every party delivers exactly the broadcast value from that sender exactly once; a further Deliver returns nothing',
-    'broadcast value m in [-3,200)', 'n=4,t=1; sender 0..3 and four deterministic schedules (rotation forward/backward, run-to-idle forward/backward), one query each',
-    slices=[{'H_SENDER': s, 'H_SCHED': c} for s in range(4) for c in range(4)])
-HARNESSES[-1]['unwindset'] = dict(HARNESSES[-1]['unwindset'], **{'h_honest.3': 48})
+ONE = 'one real party P1 at n=4, t=1; sender 0 (2 in step_send), slot numbers 1..2, channel ids 0 and H("sub"); concrete message prefix'
+RBC('step_send', 'h_step_send', 'r-send naming another originator than the link it arrived on: no echo, nothing stored; genuine r-send: echo H(m) to all; second r-send for the tag (same or other link): ignored',
+    'payloads x, y in [-2,40), their digests', ONE)
+RBC('step_ready', 'h_step_ready', 'ready counting: a repeated ready, a ready for another digest and a changed-mind ready do not count; own ready at t+1; delivery exactly at the 2t+1-th distinct party and only for the same digest',
+    '- (digest of the last ready enumerated: the quorum digest, the other digest seen, a fresh one)', ONE, slices=[{'H_D3': 0}, {'H_D3': 9}])
+RBC('step_answer', 'h_step_answer', 'stored r-send payload m\' but quorum on H(m): r-request to 2t+1 parties; r-answer accepted iff it hashes to the agreed digest; delivered value is m; refused answer changes nothing; no second delivery by a further answer',
+    '- (payload of the first r-answer enumerated: m, another value)', ONE, slices=[{'H_X': 10}, {'H_X': 12}])
+RBC('step_fifo', 'h_step_fifo', 'FIFO: slot 2 acknowledged before slot 1 is held back and delivered right after slot 1', '- (concrete scenario)', ONE)
+# setID builds 80..120 character texts: 256-byte streams and 128-byte strings make every step ~3x dearer -> thorough tier only (measured 20..24 min under load)
+CH = dict(defines={'VF_BITS': 34, 'H_DBITS': 4, 'H_TOKBYTES': 2, 'MINISTL_STREAM_CAP': 256, 'MINISTL_STRING_MINCAP': 127}, in_tiers=('thorough',), timeout=3000)
+RBC('step_chan', 'h_step_chan', 'setID/unsetID: a complete quorum of the outer channel is not delivered inside the sub-channel; same slot numbers in the sub-channel deliver their own payload; the outer one is delivered after unsetID',
+    '- (concrete scenario)', ONE, **CH)
+RBC('step_dfrom', 'h_step_dfrom', 'DeliverFrom(i): values of other senders are kept; a value kept in the outer channel is not handed out inside a sub-channel, and is after unsetID, once',
+    '- (concrete scenario)', ONE, **CH)
+# Not registered (kept as code in C14_rbc.cc, see notes/C14.md):
+#  h_dfrom_progress  - candidate F5 (DeliverFrom starves behind a foreign-channel entry): expected to FAIL on the current tree
+#  h_step_answer with H_NOFIFO=1 - non-FIFO channel, duplicate delivery by several r-answers suspected; not run
+#  h_honest (H_N=4,H_T=1) - holds in principle but ~40 min per slice
